@@ -146,6 +146,8 @@ def small_cases(starts, maxlen):
                     yield [S, L, [list(iv)]]
                 for i, j in itertools.combinations(range(len(ivs)), 2):
                     yield [S, L, [list(ivs[i]), list(ivs[j])]]
+                    if (i + j) % 3 == 0:
+                        yield [S, L, [list(ivs[j]), list(ivs[i])]]     # blacklist not sorted by start
     return gen
 
 
